@@ -87,7 +87,7 @@ def run(ctx):
     c.floor("R2", "user-code call sites under guard evaluation", nsites, 5)
     # ---- R3 missing guard is an error, never a verdict --------------------------
     raises = [x for x in own_nodes(ev.node) if isinstance(x, ast.Raise) and x.exc is not None and "ImplementationMissingError" in norm(x.exc)]
-    c.floor("R3", "raise ImplementationMissingError in the evaluator", len(raises), 1)
+    c.expect("R3", "raise ImplementationMissingError in the evaluator", len(raises), 1, ev, "a guard that is named but not implemented no longer raises ImplementationMissingError: it is silently decided one way")
     for r_ in raises:
         h = local_container(ev, r_, catches={"XStateMachineError", "ImplementationMissingError"})
         c.ob("R3", h is None, ev, "missing-guard-raise", "the missing-implementation error is not converted into a verdict" if h is None else
@@ -135,7 +135,7 @@ def run(ctx):
              f"the 'state is active' predicates differ: {forms}", preds[1].node)
     # ---- R6 user implementation wins over built-in stateIn ----------------------
     calls = self_calls_in(ev, "_is_state_in")
-    c.floor("R6", "built-in stateIn dispatch", len(calls), 1)
+    c.expect("R6", "built-in stateIn dispatch", len(calls), 1, ev, "the evaluator no longer dispatches the built-in stateIn guard")
     for call in calls:
         ok = False
         for a, pol in guards_at(ev, call):
@@ -146,7 +146,7 @@ def run(ctx):
              "the built-in stateIn branch is not guarded by 'type not in logic.guards': a user guard named stateIn is ignored", call)
     # ---- R8 parameterised guards receive their resolved params --------------------------
     gcalls = [x for x in own_nodes(ev.node) if isinstance(x, ast.Call) and norm(x.func).endswith("_call_with_optional_params")]
-    c.floor("R8", "guard implementation call", len(gcalls), 1)
+    c.expect("R8", "guard implementation call", len(gcalls), 1, ev, "the evaluator no longer calls the user guard implementation through _call_with_optional_params")
     for x in gcalls:
         last = x.args[-1] if x.args else None
         ok = last is not None and any("_resolve_params" in norm(getattr(a, "value", a)) and "params" in norm(getattr(a, "value", a))
@@ -191,7 +191,7 @@ def run(ctx):
                          for y in ast.walk(a)) and pol for a, pol in guards_at(cb, x))
             c.ob("R7", ok, cb, "choose-branch-guarded", "a choose branch is taken only when the shared evaluator passes (or it is unguarded)" if ok else
                  "a choose branch's actions are returned without consulting _is_guard_satisfied", x)
-    c.floor("R7", "choose branch returns", n7, 1)
+    c.expect("R7", "choose branch returns", n7, 1, cb, "the choose branch no longer returns the chosen actions")
     for rv, nd in key_reads(cb, "guard"):
         pass
 
